@@ -128,8 +128,9 @@ def run_case(case):
                                    default_noreply=False, pool_idle_timeout=case.get("idle", 0), retry_attempts=case.get("retry_attempts", 2))
                 pool = next(iter(pc.clients.values())).client_pool
             else:
+                from pymemcache.client.base import KeepaliveOpts
                 pc = PooledClient(("mc1", 11211), socket_module=net, max_pool_size=max_size, lock_generator=make_lock, default_noreply=False,
-                                  pool_idle_timeout=case.get("idle", 0))
+                                  pool_idle_timeout=case.get("idle", 0), **({"socket_keepalive": KeepaliveOpts(idle=2, intvl=3, cnt=4)} if case.get("keepalive") else {}))
                 if case.get("falsy"):
                     from vlib import subclasses
                     pc.client_class = subclasses.FalsyClient
@@ -149,6 +150,9 @@ def run_case(case):
             pool._after_remove = after
             if case.get("fail_recv") is not None:
                 net.plan([{"call": None, "kind": "recv", "nth": k, "what": "reset"} for k in case["fail_recv"]])
+            if case.get("fail_setsockopt") is not None:
+                # TCP keepalive is configured; the n-th socket option cannot be set (the connection is up by then)
+                net.plan([{"call": None, "kind": "setsockopt", "nth": k, "what": "oserror"} for k in case["fail_setsockopt"]])
             if case.get("interrupt_recv") is not None:
                 # a KeyboardInterrupt (any non-Exception BaseException: gevent.Timeout, SystemExit) delivered inside that recv
                 net.plan([{"call": None, "kind": "recv", "nth": k, "what": "kbd"} for k in case["interrupt_recv"]])
@@ -262,7 +266,7 @@ def run_case(case):
                         if not (harness == "h" and "All servers seem to be down" in str(e)):
                             problems.append(("internal-error", "%s raised %r" % (op, e)))
                     except OSError as e:
-                        if harness != "c":
+                        if harness != "c" and case.get("fail_setsockopt") is None:
                             problems.append(("internal-error", "%s raised %r" % (op, e)))
                     except Exception as e:  # noqa: BLE001
                         if harness == "c":
@@ -405,6 +409,10 @@ def bounded_cases(tier, seed):
     for ms in (1, 2):
         confs.append({"harness": "b", "threads": [["get"], ["get"]], "max_size": ms, "interrupt_recv": [0], "two_in_quick": True})
         confs.append({"harness": "b", "threads": [["set", "get"], ["get"]], "max_size": ms, "interrupt_recv": [1], "idle": 5, "tick": 3})
+    # TCP keepalive configured, and one of its socket options refused on an established connection
+    for ms in (1, 2):
+        confs.append({"harness": "b", "threads": [["get"], ["set"]], "max_size": ms, "keepalive": True, "fail_setsockopt": [ms], "two_in_quick": ms == 2})
+    confs.append({"harness": "b", "threads": [["get", "get"], ["set"]], "max_size": 2, "keepalive": True, "fail_setsockopt": [3, 4]})
     # pooled objects that are falsy (an object pool holds whatever its creator returns; a client_class may define __len__)
     for ms in (1, 2):
         confs.append({"harness": "a", "threads": [["gr", "gr"], ["gr"]], "max_size": ms, "idle": 0, "falsy": True})
